@@ -7,7 +7,8 @@
 //! * `label`: a name hint for the task that is about to be spawned;
 //! * `point`: a synchronous preemption point (the harness may run other tasks here);
 //! * `capacity`: the capacity of an actor mailbox;
-//! * `push_send`: the transport used by the push loop.
+//! * `push_send`: the transport used by the push loop;
+//! * `order`: where the iteration of an unordered collection starts.
 //!
 //! With no `Hooks` installed on the current thread everything here is a pass-through.
 use std::cell::{Cell, RefCell};
@@ -32,6 +33,12 @@ pub trait Hooks {
 
     /// Sends a push request.
     fn push_send(&self, request: reqwest::RequestBuilder) -> PushSendFuture;
+
+    /// An unordered collection of `n` elements is about to be iterated (hash-map order in
+    /// production): the answer `k < n` is the element to start from, in a canonical order.
+    fn order(&self, _site: &'static str, _n: usize) -> usize {
+        0
+    }
 
     /// An instrumented lock (identified by where it was created) is about to be acquired
     /// (`acquire`) or has been released. Lets a harness build the lock-order graph.
@@ -72,6 +79,14 @@ pub fn point(site: &'static str) {
 /// The mailbox capacity for the given kind of actor.
 pub fn capacity(kind: &'static str, default: usize) -> usize {
     hooks().map(|h| h.capacity(kind, default)).unwrap_or(default)
+}
+
+/// Where to start iterating an unordered collection of `n` elements.
+pub fn order(site: &'static str, n: usize) -> usize {
+    if n < 2 {
+        return 0;
+    }
+    hooks().map(|h| h.order(site, n) % n).unwrap_or(0)
 }
 
 /// Sends a push request, through the harness if there is one.
